@@ -81,7 +81,7 @@ fn run(a: &vhcore::Args) -> i32 {
             }
             if let Some((kind, msg)) = diff_builds(base, var) {
                 let key = match case.known_class {
-                    Some(k) => format!("C03|{}|{k}|{kind}", v.label),
+                    Some(k) => format!("C03|{k}"),
                     None => format!("C03|{}|{}|{kind}", v.label, case.space),
                 };
                 let mut rj = vh_comp::replay::case_replay_json(case, &v.label, v.release);
